@@ -13,8 +13,9 @@ import (
 )
 
 type globObj struct {
-	pat  value // string or symStr (single Str term)
-	comp glob.Glob
+	pat   value // string or symStr (single Str term)
+	comp  glob.Glob
+	plain bool // the pattern has no metacharacter: it matches exactly itself
 }
 
 func (i *interpreter) globIface(g *globObj) value {
@@ -41,8 +42,36 @@ func init() {
 			g.comp = c
 		} else {
 			r := toRope(args[0])
+			if np := normRope(r.p); len(np) == 1 && (np[0].k == pItoa || np[0].k == pUtoa) {
+				// a rendered integer: digits and a sign only, a valid pattern that matches exactly itself
+				g.plain = true
+				return fr.i.globIface(g), nil
+			}
 			if _, ok := fr.i.ex.strTerm(normRope(r.p)); !ok {
 				panic(abortPath{why: "glob pattern built from several symbolic pieces", kind: "unsupported"})
+			}
+			// a symbolic pattern may be syntactically invalid (gobwas rejects e.g. an unclosed "["):
+			// uninterpreted predicate globvalid(p); patterns free of metacharacters and "*" are valid
+			e := fr.i.ex
+			pt, _ := e.strTerm(normRope(r.p))
+			e.solver.declareFun("globvalid", "(Str) Bool")
+			e.solver.declareFun("metafree", "(Str) Bool")
+			if !e.solver.lowered["gv "+pt] {
+				e.solver.lowered["gv "+pt] = true
+				e.solver.send(fmt.Sprintf("(assert (=> (metafree %s) (globvalid %s)))", pt, pt))
+				e.solver.send(fmt.Sprintf("(assert (=> (= %s %s) (globvalid %s)))", pt, e.solver.lit("*"), pt))
+			}
+			known := false
+			for _, g := range e.globCompiles {
+				if g == pt {
+					known = true
+				}
+			}
+			if !known {
+				e.globCompiles = append(e.globCompiles, pt)
+			}
+			if !e.decide("(globvalid " + pt + ")") {
+				return nil, fmt.Errorf("unexpected end of input")
 			}
 			fr.i.ex.Stats.Assumptions["gobwas/glob: symbolic patterns are modelled by the uninterpreted predicate globmatch(p,s) with axioms globmatch(\"*\",s) and, for patterns free of glob metacharacters, globmatch(p,s) <=> p = s; glob syntax itself is outside the claim"] = true
 		}
@@ -71,6 +100,9 @@ func init() {
 		e := fr.i.ex
 		if s, ok := args[1].(string); ok && g.comp != nil {
 			return g.comp.Match(s)
+		}
+		if g.plain {
+			return e.ropeEq(toRope(g.pat), toRope(args[1]))
 		}
 		if ps, ok := g.pat.(string); ok {
 			if ps == "*" {
